@@ -374,9 +374,10 @@ def build_get_compartment_infectiousness(model):
 
         strain_comp_inf = {}
 
+        strain_strat = model._get_strain_stratification_name()
         for strain in model._disease_strains:
-            if "strain" in model.stratifications:
-                strain_filter = {"strain": strain}
+            if strain_strat is not None:
+                strain_filter = {strain_strat: strain}
             else:
                 strain_filter = {}
 
